@@ -16,7 +16,9 @@ MANIFEST_ENTRY = {
     "note": "Trusted: Lean kernel + propext/Classical.choice/Quot.sound; the translator (validated by the correspondence on the same functions); IEEE rounding and torch are outside the theorems. Hand-modelled and only tied by correspondence: torch.linalg.lstsq (as normal equations), torch.linalg.svd (abstract, assumed to meet IsSVD), the k-grid/mask plumbing of the fit (pinned to a template by the translator) and of _return_lateral_shifts (fftfreq grid, `/2/np.pi`), the plumbing around the alias loops (key validation, nested-dict recursion, zero fill, float32 conversion). Labels outside the 25-label table (e.g. 'C77_a') are outside the model. Gradient theorems are partial derivatives (HasDerivAt), not a joint Fréchet derivative.",
     "technique": "Lean 4 proof over translator output (Python ast → Lean, regenerated every run) + model-vs-implementation Float correspondence + autograd/consistency predicates on the real code",
 }
-RULE = ("a case is one coefficient set evaluated at several (α,φ) points (formula stream), one input dict for one alias "
+RULE = ("alias values are drawn over the numeric forms in FORMS (Python int/float/bool, NumPy scalars and 0-d arrays, "
+        "torch 0-d tensors; signed/unsigned/float/bool, edges included) and `defocus = d` must give C10 = -d as real numbers; "
+        "a case is one coefficient set evaluated at several (α,φ) points (formula stream), one input dict for one alias "
         "implementation (alias stream), or one (grid, mask, θ, C10, C12, φ12) fit; distinct non-trivial = distinct "
         "(stream, dtype, regime, set of aberration orders present, #keys bucket, alias/None/nested usage, outcome, "
         "θ kind, sign of C10) with at least one non-zero coefficient")
@@ -24,6 +26,7 @@ TRUSTED = ["harness/translator/aberr2lean.py (partial evaluator, grammar in its 
            "torch elementwise kernels, torch.linalg.lstsq/svd, torch autograd (the gradient oracle of the failing-input search)"]
 ASSUMPTIONS = ["float `1/3`, `0.5`, … in the source are read as exact rationals in the ℝ theorems (IEEE rounding is measured, not proved)",
                "`if any(k in coefs …)` guards are emitted both unguarded and faithfully (`…_guarded`, run by the driver); guards_transparent proves the two agree for every set of present keys when absent keys read 0",
+               "a coefficient value is modelled as a real number with a numeric type (TVal: exact | unsigned b | signed b); `float(v)` reads it, `-v` negates in that type; NumPy/torch bool negation (which raises) is not modelled",
                "alias loop bodies are translated by evaluating them on the finite key universe (all symbols and aliases) plus one sentinel for any other key; sound because the translator rejects any use of the key other than ==, `in`, table lookup and dict store",
                "remainder(x, 2π) in fit_aberrations_from_shifts is modelled on [-2π, 4π) only; remainder_model_exact proves the model equals x−⌊x/y⌋y there and that both call sites stay inside that range",
                "_torch_polar is translated on top of an abstract svd; torch_polar_is_polar proves it equals the closed form polar2 (run by the driver) for any svd meeting its specification; correctness of torch.linalg.svd is measured",
@@ -367,6 +370,68 @@ def dy(rng, lo=-64, hi=64):
     return rng.randint(lo * 8, hi * 8) / 8.0
 
 
+# numeric forms of a coefficient value (everything the three alias routes accept on the clean tree):
+# name -> (family, lo, hi); a typed value is stored in the case as [form, number]
+FORMS = {
+    "int": ("exact", -512, 512), "float": ("exact", None, None), "bool": ("bool", 0, 1),
+    "np.bool_": ("bool", 0, 1), "np.float32": ("float", None, None), "np.float64": ("float", None, None),
+    "np.int8": ("signed", -128, 127), "np.int16": ("signed", -512, 512), "np.int32": ("signed", -512, 512),
+    "np.int64": ("signed", -512, 512),
+    "np.uint8": ("unsigned", 0, 255), "np.uint16": ("unsigned", 0, 1023), "np.uint32": ("unsigned", 0, 1023),
+    "np.uint64": ("unsigned", 0, 1023),
+    "arr.float32": ("float", None, None), "arr.float64": ("float", None, None), "arr.int8": ("signed", -128, 127),
+    "arr.int32": ("signed", -512, 512), "arr.uint8": ("unsigned", 0, 255), "arr.uint16": ("unsigned", 0, 1023),
+    "arr.uint64": ("unsigned", 0, 1023), "arr.bool": ("bool", 0, 1),
+    "t.float32": ("float", None, None), "t.float64": ("float", None, None), "t.int8": ("signed", -128, 127),
+    "t.int16": ("signed", -512, 512), "t.int32": ("signed", -512, 512), "t.int64": ("signed", -512, 512),
+    "t.uint8": ("unsigned", 0, 255), "t.bool": ("bool", 0, 1),
+}
+
+
+def gen_typed(rng):
+    form = rng.choice(sorted(FORMS))
+    fam, lo, hi = FORMS[form]
+    if lo is None:
+        x = dy(rng)
+    elif rng.chance(0.15):
+        x = rng.choice([lo, hi, 0])           # edges: the minimal signed value, the largest unsigned, zero
+    else:
+        x = rng.randint(lo, hi)
+    return [form, x]
+
+
+def is_typed(v):
+    return isinstance(v, list) and len(v) == 2 and isinstance(v[0], str) and v[0] in FORMS
+
+
+def rv(v):
+    """the value as a real number (what `defocus = d` means)"""
+    if v is None:
+        return None
+    return float(v[1]) if is_typed(v) else float(v)
+
+
+def obj(v):
+    """the Python object of that numeric form"""
+    if not is_typed(v):
+        return v
+    import numpy as np
+    import torch
+    form, x = v
+    if form == "int":
+        return int(x)
+    if form == "float":
+        return float(x)
+    if form == "bool":
+        return bool(x)
+    lib, ty = form.split(".")
+    if lib == "np":
+        return np.bool_(bool(x)) if ty == "bool_" else getattr(np, ty)(x)
+    if lib == "arr":
+        return np.array(bool(x) if ty == "bool" else x, dtype=getattr(np, "bool_" if ty == "bool" else ty))
+    return torch.tensor(bool(x) if ty == "bool" else x, dtype=getattr(torch, ty))
+
+
 def gen_alias_case(rng):
     impl = rng.choice(["standardize", "validate", "probe_params"])
     pool = SYMS + list(ALIASES)
@@ -380,6 +445,8 @@ def gen_alias_case(rng):
         v = dy(rng)
         if rng.chance(0.1):
             v = None
+        elif rng.chance(0.65) or (k == "defocus" and rng.chance(0.6)):
+            v = gen_typed(rng)          # a number in one of the numeric forms the routes accept
         elif rng.chance(0.2):
             v = int(v)
         items.append([k, v])
@@ -415,16 +482,18 @@ def eval_alias_case(ctx, drv, case):
     flat = []      # (key, value) in processing order, for the predicate
 
     def enc_opt(v):
-        return None if v is None else f2b(float(v))
+        return None if v is None else f2b(rv(v))
+    import warnings
+    warnings.simplefilter("ignore")
     try:
         if impl == "standardize":
-            out = cp.standardize_aberration_coefs({k: v for k, v in items})
+            out = cp.standardize_aberration_coefs({k: obj(v) for k, v in items})
             res = {"ok": [[k, float(v)] for k, v in out.items()]}
             flat = [(k, v) for k, v in items]
             req = {"op": "standardize", "items": [[k, enc_opt(v)] for k, v in items]}
         elif impl == "validate":
             from quantem.core.utils.validators import validate_aberration_coefficients
-            out = validate_aberration_coefficients({k: v for k, v in items})
+            out = validate_aberration_coefficients({k: obj(v) for k, v in items})
             res = {"ok": [[k, float(v)] for k, v in out.items()]}
             flat = [(k, v) for k, v in items]
             req = {"op": "validate", "items": [[k, enc_opt(v)] for k, v in items]}
@@ -435,7 +504,7 @@ def eval_alias_case(ctx, drv, case):
             for k, v in items:
                 if isinstance(v, dict):
                     sub = v["__dict__"]
-                    params[k] = {a: b for a, b in sub}
+                    params[k] = {a: obj(b) for a, b in sub}
                     enc.append([k, {"d": [[a, enc_opt(b)] for a, b in sub]}])
                     flat += [(a, b) for a, b in sub]
                 elif isinstance(v, bool):
@@ -445,8 +514,8 @@ def eval_alias_case(ctx, drv, case):
                     params[k] = None
                     enc.append([k, None])
                 else:
-                    params[k] = v
-                    enc.append([k, {"n": f2b(float(v))}])
+                    params[k] = obj(v)
+                    enc.append([k, {"n": f2b(rv(v))}])
                     flat.append((k, v))
             stub = types.SimpleNamespace(DEFAULT_PROBE_PARAMS=dict(ProbeBase.DEFAULT_PROBE_PARAMS),
                                          _probe_params=dict(ProbeBase.DEFAULT_PROBE_PARAMS),
@@ -470,14 +539,19 @@ def eval_alias_case(ctx, drv, case):
     if mv != res:
         ctx.disagree("alias", case, mv, res, note=impl)
     has_none = any(v is None for _, v in flat)
+    fams = tuple(sorted({FORMS[v[0]][0] + ":" + v[0].split(".")[0] for _, v in flat if is_typed(v)}))
+    for _, v in flat:
+        if is_typed(v):
+            ctx.dist[f"alias:form:{v[0]}"] += 1
+    dform = next((v[0] for k, v in flat if k == "defocus" and is_typed(v)), None)
     ctx.mark(("alias", impl, res.get("err", "ok"), min(len(flat), 6), "defocus" in [k for k, _ in flat], has_none,
-              case.get("max_order"), any(isinstance(v, dict) for _, v in items)))
+              case.get("max_order"), any(isinstance(v, dict) for _, v in items), fams[:2], dform))
     ctx.sample({"stream": "alias", "impl": impl, "items": items, "result": res}, limit=4)
     # --- predicate: 'defocus' always means C10 = -defocus; other aliases keep the value ------------
     if "ok" in res:
         got = dict((k, v) for k, v in res["ok"])
         keys = [k for k, v in flat if v is not None]
-        vals = {k: float(v) for k, v in flat if v is not None}
+        vals = {k: rv(v) for k, v in flat if v is not None}
         if "defocus" in vals and "C10" not in vals:
             if got.get("C10") != -vals["defocus"]:
                 ctx.pred_fail(f"defocus-alias-{impl}", f"{impl}: 'defocus' did not become C10 = -defocus", case,
